@@ -347,6 +347,46 @@ async fn server_paths(w: &NetWorld) -> Option<(Arc<sos_core::Paths>, BTreeSet<St
     Some((paths, as_strings(&canonical)))
 }
 
+
+/// A correct upload whose body arrives in two parts with an observer in
+/// between (a slow connection; another device, a listing or a backup looking
+/// at the server meanwhile): when the second part is asked for, the server has
+/// consumed the first. At that instant everything the server's own
+/// `list_external_files` names (what `compare_files` and downloads are answered
+/// from) must hash to its name. The first finding is left in `seen`.
+fn observed_body(bytes: &[u8], spaths: Arc<sos_core::Paths>, seen: Arc<std::sync::Mutex<Option<String>>>) -> axum::body::Body {
+    let cut = bytes.len() / 2;
+    let first = bytes::Bytes::copy_from_slice(&bytes[..cut]);
+    let second = bytes::Bytes::copy_from_slice(&bytes[cut..]);
+    let st = futures::stream::unfold((0u8, first, second, spaths, seen), |(n, first, second, spaths, seen)| async move {
+        match n {
+            0 => Some((Ok::<_, std::io::Error>(first.clone()), (1, first, second, spaths, seen))),
+            1 => {
+                // let the handler get the first part to its file
+                for _ in 0..4 {
+                    tokio::task::yield_now().await;
+                }
+                if let Ok(listing) = sos_external_files::list_external_files(&spaths).await {
+                    for f in listing.iter() {
+                        let path = spaths.into_file_path(f);
+                        if let Ok(b) = std::fs::read(&path) {
+                            if sha256_hex(&b) != f.file_name().to_string() {
+                                let mut g = seen.lock().unwrap();
+                                if g.is_none() {
+                                    *g = Some(format!("{f}: {} bytes on disk under the content-addressed name while the upload was half way; sha256 = {}", b.len(), sha256_hex(&b)));
+                                }
+                            }
+                        }
+                    }
+                }
+                Some((Ok(second.clone()), (2, first, second, spaths, seen)))
+            }
+            _ => None,
+        }
+    });
+    axum::body::Body::from_stream(st)
+}
+
 /// C17 oracle on the server. `settled`: a device whose log equals the
 /// server's has just completed its transfers.
 async fn check_server(w: &NetWorld, settled: bool, stale_reupload: bool, rec: &mut Recorder, when: &str) {
@@ -466,10 +506,21 @@ impl FileWorld {
                     }
                     let path = paths.into_file_path(&f);
                     let Ok(bytes) = std::fs::read(&path) else { continue }; // moved or deleted since
-                    match client
-                        .file_request("upload", Method::PUT, &file_route(&f), None, Some(axum::body::Body::from(bytes.clone())), bytes)
-                        .await
-                    {
+                    // uploads of two bytes or more arrive in two parts with an
+                    // observer of the server's blob store in between
+                    let seen = Arc::new(std::sync::Mutex::new(None));
+                    let body = match (bytes.len() >= 2, server_paths(&self.w).await) {
+                        (true, Some((sp, _))) => {
+                            rec.stats.count("c17.uploads_observed_half_way");
+                            observed_body(&bytes, sp, seen.clone())
+                        }
+                        _ => axum::body::Body::from(bytes.clone()),
+                    };
+                    let res = client.file_request("upload", Method::PUT, &file_route(&f), None, Some(body), bytes).await;
+                    if let Some(what) = seen.lock().unwrap().take() {
+                        rec.violate("C17", "C17/server/partially_received_file_exposed", what);
+                    }
+                    match res {
                         Ok((st, _, _)) if st.is_success() || st.as_u16() == 304 => rec.stats.count("c17.uploads"),
                         Ok((st, _, body)) => {
                             problems += 1;
